@@ -458,6 +458,21 @@ pub fn main(tier: Tier, replay: Option<String>) -> i32 {
     // breadth-first in the quick tier (shortest counterexample first); depth-first in the thorough tier,
     // whose frontier of real buffers would not fit into memory breadth-first
     jobs.push(job(es, tier.pick(Strategy::Bfs, Strategy::Dfs), Some(tier.pick(45, 1800)), bound));
+    // the same space over another set of original characters: the first three-byte scalar value
+    // (U+0800, lead byte 0xE0), the last two-byte one (U+07FF) and an astral one
+    {
+        let es2 = EditSpace {
+            world: world.clone(),
+            init_syms: vec!["\u{800}", "\u{7ff}", "𠮷", "a"],
+            init_len: tier.pick(2, 3),
+            repl_single: vec!["", "x", "\u{800}", "x\u{fff}"],
+            repl_pair: vec!["", "x", "\u{800}\u{7ff}"],
+            depth: 2,
+            max_chars: 5,
+        };
+        let bound2 = json!({"init_len": es2.init_len, "depth": es2.depth, "originals_over": es2.init_syms, "single_menu": es2.repl_single, "pair_menu": es2.repl_pair});
+        jobs.push(job(es2, Strategy::Dfs, Some(tier.pick(45, 900)), bound2));
+    }
     // morpheme-level statement on the C01 trees (primary world only in quick)
     for (i, j) in c01::jobs(tier, c08_text_oracle).into_iter().enumerate() {
         if tier == Tier::Quick && i > 1 {
